@@ -6,6 +6,11 @@ The ORDER of the protocol statements is what the Lean theorems are about: the ge
 `PedVerif.Subproc` and every theorem of Props/C17 is checked about it.  Reordering that keeps the property re-proves;
 dropping `tx.close()`, `remove_reader`, `join`, `rx.close()` or the EOF handler does not.
 
+HOW readiness is tested before the wait is part of the instruction: `if not rx.poll(): await event.wait()` (a zero-timeout poll of the
+Connection — multiprocess waits with selectors.PollSelector, any descriptor number) becomes `pollWait`; `if not select.select([rx], [], [], 0)[0]`
+becomes `selectWait`, which the model lets raise when the read end's descriptor number is >= FD_SETSIZE (`local_ok` and
+`readiness_by_connection_poll` do not re-prove); any other test is outside the subset (Skip).
+
 Also read off: whether `join` is given a timeout (`process.join(timeout=..)` / `process.join(1.0)` becomes the instruction
 `joinTimeout`, which goes on without having reaped a child that needs longer — `terminates_and_releases` does not re-prove), and
 whether the child is made daemonic (`Process(.., daemon=..)` or `process.daemon = ..`: a daemonic process may not start
@@ -15,7 +20,10 @@ Second generated file, `SubprocModule.lean` (never skipped for a change of the p
 that could carry state from one invocation to the next, or from one event loop to the next — module-level names bound by anything
 but imports / classes / functions / `T = TypeVar(..)`, class attributes, `with` / `async with` statements, acquire / release
 calls and mentions of synchronisation primitives (Semaphore, Lock, …) in any function, `global` / `nonlocal`, stores through
-objects that are not locals, mutable defaults, decorators other than `@wraps(..)`.  `no_state_between_invocations` (Props/C17)
+objects that are not locals, mutable defaults, decorators other than `@wraps(..)`; and `calleeTouchedInParent`: every use the parent side
+(`in_subprocess`, its wrapper, `calculate_in_subprocess`) makes of the callee or of the caller's `*args` / `**kwargs` other than passing
+them on unchanged (`inspect.signature(func)`, `signature.bind(*args, **kwargs)`, `len(args)`, … — `callee_and_arguments_only_passed_on`).
+`no_state_between_invocations` (Props/C17)
 proves the three lists empty by `decide`: the N-invocation theorems are about invocations that share nothing but the event
 loop's reader table, and a module that keeps such state is outside them."""
 import ast
@@ -62,7 +70,7 @@ class Comp:
         return self.nlabels
 
     def emit(self, op, ctx, arg=None):
-        self.code.append(['op', op, ctx['eof'], ctx['err'], arg])
+        self.code.append(['op', op, ctx['eof'], ctx['err'], ctx['cancel'], arg])
         self.seen.append(op)
 
     def place(self, lab):
@@ -152,6 +160,9 @@ class Comp:
                     raise Skip('process.join(): unknown arguments')
                 # join() / join(None) / join(timeout=None) wait for the child; anything else gives up after a while
                 self.emit('join' if (to is None or _is_const(to, (None,))) else 'joinTimeout', ctx); return True
+            if 'process' in N and (_is_method_call(c, N['process'], 'terminate') or _is_method_call(c, N['process'], 'kill')) \
+                    and not c.args and not c.keywords:
+                self.emit('terminate', ctx); return True
             if 'tx' in N and _is_method_call(c, N['tx'], 'close'):
                 self.emit('closeTx', ctx); return True
             if 'rx' in N and _is_method_call(c, N['rx'], 'close'):
@@ -173,10 +184,17 @@ class Comp:
             if self.is_await_wait(c):
                 self.emit('wait', ctx); return True
             return False
-        # if not rx.poll(): await event.wait()
+        # if not <rx is readable right now>: await event.wait()   — HOW readiness is tested decides the instruction:
+        #   rx.poll() (a zero-timeout poll of the Connection: multiprocess waits with selectors.PollSelector, any descriptor number) -> pollWait
+        #   select.select([rx], [], [], 0)[0] (a zero-timeout select(): descriptor numbers below FD_SETSIZE only)                  -> selectWait
+        #   anything else (a poll with a timeout blocks the loop, process.is_alive() says nothing about the pipe, …)               -> Skip
         if isinstance(s, ast.If) and not s.orelse and len(s.body) == 1 and isinstance(s.body[0], ast.Expr) \
-                and self.is_await_wait(s.body[0].value) and self.is_not_poll(s.test):
-            self.emit('pollWait', ctx); return True
+                and self.is_await_wait(s.body[0].value):
+            how = self.readiness(s.test)
+            if how is None:
+                raise Skip(f'calculate_in_subprocess: the readiness test before `await event.wait()` is neither `not rx.poll()` nor a '
+                           f'zero-timeout select() on rx (line {s.lineno}): {ast.unparse(s.test)[:60]}')
+            self.emit(how, ctx); return True
         # if isinstance(result, SubprocessError): raise result.exception
         if isinstance(s, ast.If) and not s.orelse and len(s.body) == 1 and isinstance(s.body[0], ast.Raise):
             t, r = s.test, s.body[0]
@@ -198,15 +216,46 @@ class Comp:
     def is_await_wait(self, c):
         return isinstance(c, ast.Await) and _is_method_call(c.value, self.names.get('event'), 'wait') and not c.value.args
 
-    def is_not_poll(self, t):
+    def readiness(self, t):
+        """`t` = the condition under which the coroutine goes to sleep = "rx is NOT readable right now".  -> 'pollWait' | 'selectWait' | None"""
         rx = self.names.get('rx')
-        def poll(x): return _is_method_call(x, rx, 'poll') and not x.args and not x.keywords
-        if isinstance(t, ast.UnaryOp) and isinstance(t.op, ast.Not) and poll(t.operand):
-            return True
-        if isinstance(t, ast.Compare) and len(t.ops) == 1 and isinstance(t.ops[0], (ast.Is, ast.Eq)) and poll(t.left) \
-                and isinstance(t.comparators[0], ast.Constant) and t.comparators[0].value is False:
-            return True
-        return False
+
+        def zero(x):
+            return isinstance(x, ast.Constant) and type(x.value) in (int, float) and x.value == 0
+
+        def poll(x):
+            # rx.poll() / rx.poll(0) / rx.poll(0.0) / rx.poll(timeout=0): the timeout defaults to 0.0
+            if not _is_method_call(x, rx, 'poll') or len(x.args) > 1 or any(k.arg != 'timeout' for k in x.keywords):
+                return False
+            to = _arg(x, 0, 'timeout')
+            return to is None or zero(to)
+
+        def is_rx(x):
+            return _name(x) == rx or _is_method_call(x, rx, 'fileno') and not x.args and not x.keywords
+
+        def empty(x):
+            return isinstance(x, (ast.List, ast.Tuple)) and not x.elts
+
+        def select0(x):
+            # select.select([rx], [], [], 0)[0]  /  select([rx.fileno()], (), (), 0.0)[0]: the list of readable objects
+            if not (isinstance(x, ast.Subscript) and isinstance(x.slice, ast.Constant) and x.slice.value == 0):
+                return False
+            c = x.value
+            if not (isinstance(c, ast.Call) and not c.keywords and len(c.args) == 4):
+                return False
+            f = c.func
+            if not (_name(f) == 'select' or isinstance(f, ast.Attribute) and f.attr == 'select' and _name(f.value) == 'select'):
+                return False
+            r, w, e, to = c.args
+            return isinstance(r, (ast.List, ast.Tuple)) and len(r.elts) == 1 and is_rx(r.elts[0]) and empty(w) and empty(e) and zero(to)
+
+        for test, how in ((poll, 'pollWait'), (select0, 'selectWait')):
+            if isinstance(t, ast.UnaryOp) and isinstance(t.op, ast.Not) and test(t.operand):
+                return how
+            if how == 'pollWait' and isinstance(t, ast.Compare) and len(t.ops) == 1 and isinstance(t.ops[0], (ast.Is, ast.Eq)) and test(t.left) \
+                    and isinstance(t.comparators[0], ast.Constant) and t.comparators[0].value is False:
+                return how
+        return None
 
     def block(self, stmts, ctx):
         for s in stmts:
@@ -216,13 +265,18 @@ class Comp:
                 raise Skip(f'calculate_in_subprocess: statement outside the translated subset at line {s.lineno}: {ast.unparse(s)[:60]}')
 
     def try_stmt(self, s, ctx):
-        catches = {'eof': None, 'err': None}
+        """three kinds of exception are told apart: EOFError, any other error (an `Exception`), and the CancelledError that asyncio raises
+        at the `await` when the awaiting task is cancelled / timed out — a BaseException: `except Exception` / `except OSError` /
+        `except EOFError` do NOT catch it, `except BaseException`, a bare `except` and `finally` do"""
+        KINDS = ('eof', 'err', 'cancel')
+        catches = {k: None for k in KINDS}
         hlabels = []
         for h in s.handlers:
             lab = self.label()
             hlabels.append(lab)
-            tn = _name(h.type) if h.type is not None else 'BaseException'
-            kinds = {'EOFError': ['eof'], 'OSError': ['err'], 'Exception': ['eof', 'err'], 'BaseException': ['eof', 'err']}.get(tn)
+            tn = (h.type.attr if isinstance(h.type, ast.Attribute) else _name(h.type)) if h.type is not None else 'BaseException'
+            kinds = {'EOFError': ['eof'], 'OSError': ['err'], 'Exception': ['eof', 'err'], 'BaseException': ['eof', 'err', 'cancel'],
+                     'CancelledError': ['cancel']}.get(tn)
             if kinds is None:
                 raise Skip(f'except clause names {ast.unparse(h.type)}')
             for k in kinds:
@@ -232,27 +286,34 @@ class Comp:
         l_exc = self.label() if has_fin else None
         l_fin = self.label()
         l_end = self.label()
-        inner = {'depth': ctx['depth'] + 1,
-                 'eof': catches['eof'] if catches['eof'] is not None else (l_exc if has_fin else ctx['eof']),
-                 'err': catches['err'] if catches['err'] is not None else (l_exc if has_fin else ctx['err'])}
+        inner = {'depth': ctx['depth'] + 1}
+        hctx = {'depth': ctx['depth'] + 1}
+        for k in KINDS:
+            inner[k] = catches[k] if catches[k] is not None else (l_exc if has_fin else ctx[k])
+            # the else clause and the handlers run outside the handlers but inside the finally
+            hctx[k] = l_exc if has_fin else ctx[k]
         self.block(s.body, inner)
-        # the else clause runs outside the handlers but inside the finally
-        hctx = {'depth': ctx['depth'] + 1, 'eof': l_exc if has_fin else ctx['eof'], 'err': l_exc if has_fin else ctx['err']}
         self.block(s.orelse, hctx)
         if s.handlers:
             self.code.append(['jump', l_fin])
         for h, lab in zip(s.handlers, hlabels):
             self.place(lab)
-            self.code.append(['caught'])
-            self.block(h.body, hctx)
-            self.code.append(['jump', l_fin])
+            if h.body and isinstance(h.body[-1], ast.Raise) and h.body[-1].exc is None and h.body[-1].cause is None:
+                # `except X: <cleanup>; raise` — the exception stays in flight while the clean-up runs and goes on afterwards
+                # (compiled like the exceptional copy of a `finally` block)
+                self.block(h.body[:-1], hctx)
+                self.code.append(['reraise'] + [hctx[k] for k in KINDS])
+            else:
+                self.code.append(['caught'])
+                self.block(h.body, hctx)
+                self.code.append(['jump', l_fin])
         self.place(l_fin)
         if has_fin:
             self.block(s.finalbody, ctx)
             self.code.append(['jump', l_end])
             self.place(l_exc)
             self.block(s.finalbody, ctx)
-            self.code.append(['reraise', ctx['eof'], ctx['err']])
+            self.code.append(['reraise'] + [ctx[k] for k in KINDS])
         self.place(l_end)
 
     def resolve(self):
@@ -280,13 +341,13 @@ class Comp:
         R = lambda l: None if l is None else pos[l]
         for c in code:
             if c[0] == 'op':
-                out.append((c[1], R(c[2]), R(c[3])))
+                out.append((c[1], R(c[2]), R(c[3]), R(c[4])))
             elif c[0] == 'jump':
-                out.append((f'jump {pos[c[1]]}', None, None))
+                out.append((f'jump {pos[c[1]]}', None, None, None))
             elif c[0] == 'caught':
-                out.append(('caught', None, None))
+                out.append(('caught', None, None, None))
             elif c[0] == 'reraise':
-                out.append(('reraise', R(c[1]), R(c[2])))
+                out.append(('reraise', R(c[1]), R(c[2]), R(c[3])))
         return out
 
 
@@ -295,7 +356,7 @@ def ranks(prog):
     checked in Lean (every step of the model decreases the rank), not trusted"""
     n = len(prog)
     succ = []
-    for i, (op, eof, err) in enumerate(prog):
+    for i, (op, eof, err, cancel) in enumerate(prog):
         s = set()
         if op.startswith('jump '):
             s.add(int(op.split()[1]))
@@ -303,7 +364,7 @@ def ranks(prog):
             pass
         else:
             s.add(i + 1)
-        for t in (eof, err):
+        for t in (eof, err, cancel):
             if t is not None:
                 s.add(t)
         succ.append({t for t in s if t < n})
@@ -446,7 +507,7 @@ def gen_subproc(repo):
     if not isinstance(fn, ast.AsyncFunctionDef):
         raise Skip('calculate_in_subprocess is not a coroutine function')
     c = Comp()
-    c.block(fn.body, {'depth': 0, 'eof': None, 'err': None})
+    c.block(fn.body, {'depth': 0, 'eof': None, 'err': None, 'cancel': None})
     prog = c.resolve()
     if not prog or prog[0][0] != 'pipe':
         raise Skip('calculate_in_subprocess does not begin with Pipe()')
@@ -456,10 +517,10 @@ def gen_subproc(repo):
     catches_exc, catches_base, handler_sends, else_sends, async_ok = inner_shape(tree)
     w_async, w_wraps, w_fwd = wrapper_shape(tree)
     lines = []
-    for i, (op, eof, err) in enumerate(prog):
+    for i, (op, eof, err, cancel) in enumerate(prog):
         sep = ',' if i + 1 < len(prog) else ''
         opl = f'.{op}' if ' ' not in op else f'(.{op})'
-        lines.append(f'  ⟨{opl}, {lean_opt(eof)}, {lean_opt(err)}⟩{sep}  -- {i}')
+        lines.append(f'  ⟨{opl}, {lean_opt(eof)}, {lean_opt(err)}, {lean_opt(cancel)}⟩{sep}  -- {i}')
     return HEADER.format(rel=REL) + f'''namespace PedVerif.Gen.Subproc
 
 /-- one protocol statement of `calculate_in_subprocess` -/
@@ -469,12 +530,14 @@ inductive Op where
   | closeTx                 -- tx.close()
   | addReader               -- loop.add_reader(fd=rx.fileno(), callback=event.set)
   | pollWait                -- if not rx.poll(): await event.wait()
+  | selectWait              -- if not select.select([rx], [], [], 0)[0]: await event.wait()   (select(): descriptor numbers < FD_SETSIZE only)
   | wait                    -- await event.wait()
   | removeReader            -- loop.remove_reader(fd=rx.fileno())
   | clearEvent              -- event.clear()
   | recv                    -- result = rx.recv()
   | setChildProcessError    -- result = SubprocessError(ex=ChildProcessError(...))
   | setForeign              -- result = <anything else>
+  | terminate               -- process.terminate() / process.kill(): the child ends now, whatever it was doing
   | join                    -- process.join()
   | joinTimeout             -- process.join(timeout=..): returns when the child has exited OR the time is up
   | closeRx                 -- rx.close()
@@ -485,12 +548,14 @@ inductive Op where
   | reraise                 -- end of the exceptional copy of a `finally` block
 deriving DecidableEq, Repr
 
-/-- an instruction with the program counters at which an `EOFError` / another error raised by it is handled
-    (`none`: the exception leaves the coroutine) -/
+/-- an instruction with the program counters at which an `EOFError` / another error raised by it / the `CancelledError` that arrives
+    at it (an `await`) when the awaiting task is cancelled is handled (`none`: the exception leaves the coroutine).  A CancelledError is a
+    BaseException: `except Exception` does not catch it, `except BaseException` and `finally` do -/
 structure Instr where
   op : Op
   onEof : Option Nat
   onErr : Option Nat
+  onCancel : Option Nat
 deriving DecidableEq, Repr
 
 /-- `calculate_in_subprocess`, flattened (try/except/finally compiled to jump targets; `finally` blocks are duplicated
@@ -814,6 +879,86 @@ def dispatch_inside_try(tree):
     return sorted(set(out))
 
 
+def callee_touched_in_parent(tree):
+    """every use the PARENT side makes of the callee or of the caller's arguments other than passing them on unchanged.
+
+    Parent side: `in_subprocess` (decoration time), its nested wrapper (call time) and `calculate_in_subprocess`.  Watched names: the
+    first parameter of `in_subprocess` / `calculate_in_subprocess` (the callee) and the `*args` / `**kwargs` parameters of the wrapper
+    and of `calculate_in_subprocess` (the call).  Passing on = `@wraps(func)`, `calculate_in_subprocess(func, *args, **kwargs)`,
+    `Process(.., args=(.., func, *args), kwargs=kwargs)`.  Anything else — `inspect.signature(func)`, `signature.bind(*args, **kwargs)`
+    (the first use that derives something from a watched name is what gets listed), `func.__name__`, `len(args)`, `kwargs.pop(..)`,
+    `inspect.iscoroutinefunction(func)`, calling `func` — lets the parent decide something about a call that only the callable itself
+    can decide (what it accepts is what `fun(*a, **kw)` in the child accepts: `inspect.signature` follows `__wrapped__` and honours
+    `__signature__`, and neither has to agree with the parameters the callable really takes)."""
+    out = []
+    try:
+        deco = find_func(tree, 'in_subprocess')
+        calc = find_func(tree, 'calculate_in_subprocess')
+    except Skip as e:
+        return [str(e)]
+
+    def params(fn, first):
+        w = set()
+        if first and (fn.args.posonlyargs + fn.args.args):
+            w.add((fn.args.posonlyargs + fn.args.args)[0].arg)
+        for v in (fn.args.vararg, fn.args.kwarg):
+            if v is not None:
+                w.add(v.arg)
+        return w
+
+    def scan(fn, q, watched):
+        allowed = set()          # ids of Name nodes that only pass a watched name on
+        for n in ast.walk(fn):
+            if not isinstance(n, ast.Call):
+                continue
+            f = _name(n.func)
+            if f == 'calculate_in_subprocess':
+                # calculate_in_subprocess(func, *args, **kwargs)
+                if len(n.args) == 2 and isinstance(n.args[1], ast.Starred) and len(n.keywords) == 1 and n.keywords[0].arg is None:
+                    allowed.update(id(x) for x in (n.args[0], n.args[1].value, n.keywords[0].value) if isinstance(x, ast.Name))
+            elif f == 'Process':
+                # Process(target=_inner, args=(tx, func, *args), kwargs=kwargs)
+                a, k = _arg(n, 99, 'args'), _arg(n, 99, 'kwargs')
+                if isinstance(a, ast.Tuple) and len(a.elts) == 3 and isinstance(a.elts[2], ast.Starred):
+                    allowed.update(id(x) for x in (a.elts[1], a.elts[2].value) if isinstance(x, ast.Name))
+                if isinstance(k, ast.Name):
+                    allowed.add(id(k))
+        # the smallest statement around each remaining use
+        def visit(stmts):
+            for st in stmts:
+                if isinstance(st, (ast.FunctionDef, ast.AsyncFunctionDef)):
+                    for d in st.decorator_list:
+                        if isinstance(d, ast.Call) and _name(d.func) == 'wraps' and len(d.args) == 1 and not d.keywords and _name(d.args[0]) in watched:
+                            continue                 # @wraps(func): copies the metadata, decides nothing
+                        for x in ast.walk(d):
+                            if isinstance(x, ast.Name) and x.id in watched and id(x) not in allowed:
+                                out.append(f'{q}: @{ast.unparse(d)[:56]}')
+                                break
+                    continue
+                sub = [getattr(st, f, None) for f in ('body', 'orelse', 'finalbody')]
+                heads = [c for c in ast.iter_child_nodes(st) if not isinstance(c, (ast.stmt, ast.ExceptHandler))]
+                hit = False
+                for h in heads:
+                    for x in ast.walk(h):
+                        if isinstance(x, ast.Name) and x.id in watched and id(x) not in allowed:
+                            hit = True
+                if hit:
+                    out.append(f'{q}: {ast.unparse(st).splitlines()[0][:56]}')
+                for b in sub:
+                    if isinstance(b, list) and b and isinstance(b[0], ast.stmt):
+                        visit(b)
+                for h in getattr(st, 'handlers', []) or []:
+                    visit(h.body)
+        visit(fn.body)
+
+    scan(deco, 'in_subprocess', params(deco, True))
+    for w in deco.body:
+        if isinstance(w, (ast.FunctionDef, ast.AsyncFunctionDef)):
+            scan(w, f'in_subprocess.{w.name}', params(deco, True) | params(w, False))
+    scan(calc, 'calculate_in_subprocess', params(calc, True))
+    return sorted(set(out))
+
+
 def lean_str_list(xs):
     return '[' + ', '.join(lean_str(x) for x in xs) + ']'
 
@@ -857,6 +1002,13 @@ def awaitsWhileWriteEndOpen : List String := {lean_str_list(awaits_while_tx_open
     pass the handlers the parent keeps for its own failures (the model's `raiseIfError` / `ret` end the coroutine at once, whatever the
     class of the transported exception is) -/
 def dispatchInsideTry : List String := {lean_str_list(dispatch_inside_try(tree))}
+
+/-- every use the parent side (`in_subprocess` at decoration time, its wrapper at call time, `calculate_in_subprocess`) makes of the
+    callee or of the caller's `*args` / `**kwargs` OTHER than passing them on unchanged (`@wraps(func)`,
+    `calculate_in_subprocess(func, *args, **kwargs)`, `Process(.., args=(tx, func, *args), kwargs=kwargs)`): whether a call fits is decided
+    by `fun(*a, **kw_args)` in the child and by nothing else — `inspect.signature(func)` follows `__wrapped__` and honours `__signature__`,
+    neither of which has to agree with what the callable accepts (the model's `Call.sigFits` is read by nothing) -/
+def calleeTouchedInParent : List String := {lean_str_list(callee_touched_in_parent(tree))}
 
 end PedVerif.Gen.SubprocModule
 '''
